@@ -62,6 +62,60 @@ theorem selectStaged_total (p : SelParams) (stages : List (List Score × Bool ×
     (h : final ≠ []) : ∃ i, selectStaged p stages final = some i :=
   selectStaged_isSome p stages final h
 
+/-! #### Store algebra: a repeated lookup is a no-op, a reset forgets exactly one key -/
+
+/-- A second cached lookup of the same settings returns the same value and leaves the store as it
+    is (nothing is recomputed or rewritten). -/
+theorem cachedGet_idempotent {S K V : Type} [BEq K] [LawfulBEq K] (keyOf : S → K) (compute : S → V)
+    (st : Store K V) (s : S) :
+    cachedGet keyOf compute (cachedGet keyOf compute st s).2 s = cachedGet keyOf compute st s := by
+  unfold cachedGet
+  cases h : st.get? (keyOf s) with
+  | some v => simp [h]
+  | none => simp [Store.get?]
+
+/-- A cached lookup never drops or changes an entry: every key present before is still present
+    with the same value. -/
+theorem cachedGet_preserves {S K V : Type} [BEq K] [LawfulBEq K] (keyOf : S → K) (compute : S → V)
+    (st : Store K V) (s : S) (k : K) (v : V) (hk : st.get? k = some v) :
+    (cachedGet keyOf compute st s).2.get? k = some v := by
+  unfold cachedGet
+  cases h : st.get? (keyOf s) with
+  | some w => simpa using hk
+  | none =>
+    by_cases hks : keyOf s = k
+    · subst hks; rw [h] at hk; cases hk
+    · simp only [Store.get?, List.find?_cons]
+      have : (keyOf s == k) = false := by simpa using hks
+      simp only [this]
+      exact hk
+
+/-- Resetting the cache for some settings forgets that key … -/
+theorem reset_forgets {K V : Type} [BEq K] [LawfulBEq K] (st : Store K V) (k : K) :
+    Store.get? (st.filter (fun p => !(p.1 == k))) k = none := by
+  unfold Store.get?
+  rw [Option.map_eq_none_iff, List.find?_eq_none]
+  intro p hp
+  have := (List.mem_filter.1 hp).2
+  simpa using this
+
+/-- … and only that key: every other entry is untouched. -/
+theorem reset_keeps_others {K V : Type} [BEq K] [LawfulBEq K] (st : Store K V) (k k' : K) (hne : k' ≠ k) :
+    Store.get? (st.filter (fun p => !(p.1 == k))) k' = Store.get? st k' := by
+  unfold Store.get?
+  congr 1
+  induction st with
+  | nil => rfl
+  | cons p ps ih =>
+    simp only [List.filter_cons]
+    by_cases hp : p.1 = k
+    · have h1 : (p.1 == k) = true := by simpa using hp
+      have h2 : (p.1 == k') = false := by
+        simp only [beq_eq_false_iff_ne, ne_eq]; rw [hp]; exact fun h => hne h.symm
+      simp [h1, h2, ih]
+    · have h1 : (p.1 == k) = false := by simpa using hp
+      simp only [h1, Bool.not_false, if_true, List.find?_cons, ih]
+
 /-! Non-vacuity -/
 def exP : SelParams := { one := 100, limits := [1000, 4000], minCorr := 70 }
 def exScores : List Score := [⟨250, 40, none⟩, ⟨100, 10, some 20⟩, ⟨100, 30, none⟩]
